@@ -13,6 +13,7 @@ mod refeval;
 #[cfg(feature = "hooks")]
 mod rngdrv;
 mod signcrypt;
+mod paths;
 mod signet;
 mod threshold;
 mod timelock;
